@@ -35,8 +35,14 @@ def _ns():
         """{'type': 'integer'}"""
         if self._config.get('flag') != constraint:
             self._error(field, 'configuration not inherited')
+
+    def _validate_is_not_negative(self, constraint, field, value):
+        """{'type': 'boolean'}"""
+        if constraint and isinstance(value, (int, float)) and not isinstance(value, bool) and value < 0:
+            self._error(field, 'must not be negative')
     ns['_validate_is_odd'] = _validate_is_odd
     ns['_validate_needs_cfg'] = _validate_needs_cfg
+    ns['_validate_is_not_negative'] = _validate_is_not_negative
     tm = Validator.types_mapping.copy()
     tm['even'] = TypeDefinition('even', (int,), (bool,))
     ns['types_mapping'] = tm
@@ -49,6 +55,7 @@ Sibling = type(Validator)('Sibling', (Validator,), families._named_namespace())
 EXTENSIONS = [
     ('rule', {'is_odd': True}),
     ('rule_cfg', {'needs_cfg': FLAG}),
+    ('rule_three_words', {'is_not_negative': True}),
     ('type', {'type': 'even'}),
     ('coercer', {'coerce': 'c_int'}),
     ('coercer_chain', {'coerce': ['c_id', 'c_int']}),
@@ -82,6 +89,19 @@ def plant(rng, schema):
     return kind, path, s
 
 
+def spaced(rng, schema, names=('is_odd', 'needs_cfg', 'is_not_negative')):
+    """the documented alias spelling of a rule name: spaces instead of underscores"""
+    def walk(v):
+        if isinstance(v, dict):
+            return {(k.replace('_', ' ') if k in names else k): walk(x) for k, x in v.items()}
+        if isinstance(v, list):
+            return [walk(x) for x in v]
+        if isinstance(v, tuple):
+            return tuple(walk(x) for x in v)
+        return v
+    return walk(schema)
+
+
 def model_case(case):
     c = dict(case)
     return c
@@ -103,11 +123,15 @@ def one(ctx, drv, i, prof, case):
     if planted is None:
         return
     kind, path, sch = planted
+    canon = sch
+    if kind.startswith('rule') and rng.random() < 0.5:
+        sch = spaced(rng, sch)          # the real code and the accept port get the spelling with spaces
+        kind = kind + ' (spelled with spaces)'
     cfg = dict(copy.deepcopy(case.get('cfg', {})), flag=FLAG)
     jcase = {'schema': codec.enc_val(sch), 'doc': codec.enc_val(case['doc']), 'cfg': codec.enc_val(case.get('cfg', {})),
              'extension': kind, 'position': repr(path), 'update': case.get('update', False)}
     # (3) nowhere else: base class and sibling reject it, cold
-    uses_only_x = kind in ('rule', 'rule_cfg', 'type')
+    uses_only_x = kind.startswith('rule') or kind == 'type'
     for other in (Validator, Sibling):
         if other is Sibling and not uses_only_x:
             continue
@@ -132,7 +156,7 @@ def one(ctx, drv, i, prof, case):
     if rep == 'schema_error' or 'accepted' not in rep:
         ctx.port_mismatch('accept', jcase, repr(rep)[:200], 'accepted', 'model rejects the subclass schema')
     for full in (False, True):
-        mc = dict(case, schema=sch, cls='VV')
+        mc = dict(case, schema=canon, cls='VV')
         req = env_extra(ports.base_request(mc, 'validate' if full else 'validate0'))
         try:
             mrep = ports.ask(drv, req)
@@ -245,7 +269,7 @@ def option_level(ctx):
                 ctx.fail('C16 oracle: the subclass rejects its own %s in the allow_unknown option (%s)' % (kind, type(e).__name__),
                          {'allow_unknown': repr(rules)}, detail=str(e)[:300])
                 return
-            for other in (Validator, Sibling) if kind in ('rule', 'rule_cfg', 'type') else (Validator,):
+            for other in (Validator, Sibling) if (kind.startswith('rule') or kind == 'type') else (Validator,):
                 Validator.clear_caches()
                 try:
                     other({'known': {}}, allow_unknown=copy.deepcopy(rules))
